@@ -257,6 +257,22 @@ CHECKS["C14"] = (
     "5/C14",
 )
 
+CHECKS["C15"] = (
+    "model_checking",
+    "deviation-bounded exhaustive enumeration of engine recipes and components through the real Python exporter with re-execution oracles",
+    "Five base engines, every single-field deviation of C14's alphabets, numeric deviations over arbitrary doubles "
+    "(1/3, 0.1+0.2, 1e-300, 1e300, -0.0, 5e-324, 2^53+1, +-inf, NaN) in parameters, ranges, defaults, thresholds, "
+    "heights and Discrete pairs, quotes/backslashes in descriptions and a disabled rule at every position are exported "
+    "under the aliases fl, '', '*' and a custom one, as plain repr and encapsulated (black-formatted for the bases); "
+    "the code is executed in a fresh namespace after the library's import statement and the rebuilt engine must have "
+    "the same repr, the same FLL export and bit-identical outputs on an input grid. Every component (terms, variables, "
+    "rule blocks, rules, antecedents, consequents, norms, hedges, defuzzifiers, activations, Activated, Aggregated) is "
+    "rebuilt on its own.",
+    "Quick tier rotates one alias per ordinary deviation (all four for base/number/quotes/disabled-rule groups); engine "
+    "names are non-empty identifiers.",
+    "5/C15",
+)
+
 REASON_NOT_BUILT = "check not built yet in this phase (planned in DESIGN.md section 5); no claim is made"
 
 
